@@ -36,6 +36,10 @@ type c19Cfg struct {
 	BlockMs     int     `json:"block_timeout_ms"`
 	Perturb     bool    `json:"perturb"`
 	PerturbSeed int64   `json:"perturb_seed"`
+	// NilRows: every producer also emits a nil map now and then (a JSON null payload): an accepted input
+	NilRows bool `json:"nil_rows,omitempty"`
+	// ExpTimeoutMs: ExpansionConfig.ExpansionTimeout (0 = the 5 s of the presets)
+	ExpTimeoutMs int `json:"expansion_timeout_ms,omitempty"`
 }
 
 func genC19(ref core.CaseRef, r *rand.Rand, quick bool) *c19Cfg {
@@ -77,6 +81,12 @@ func genC19(ref core.CaseRef, r *rand.Rand, quick bool) *c19Cfg {
 		if !quick {
 			c.RowsPer *= 3
 		}
+	}
+	c.NilRows = ref.Index%4 == 3 || ref.Index%8 == 2
+	if ref.Index%12 == 4 {
+		// a big backlog behind a stalled consumer is migrated with a configured expansion timeout of 1 ms
+		c.Strategy, c.Producers, c.Buf, c.Growth, c.MinInc, c.Threshold = "expand", 2, 20000, 1.5, 1000, 0.9
+		c.MaxBuf, c.SinkDelayUs, c.BlockMs, c.RowsPer, c.ExpTimeoutMs, c.Perturb = 200000, 10, 0, 20000, 1, false
 	}
 	return c
 }
@@ -177,6 +187,9 @@ func childC19(ctx *core.Ctx, raw []byte) {
 		sched.Set(pp)
 	}
 	exp := types.ExpansionConfig{GrowthFactor: c.Growth, MinIncrement: c.MinInc, TriggerThreshold: c.Threshold, ExpansionTimeout: 5 * time.Second}
+	if c.ExpTimeoutMs > 0 {
+		exp.ExpansionTimeout = time.Duration(c.ExpTimeoutMs) * time.Millisecond
+	}
 	s, err := eng.New("SELECT id, p FROM stream", eng.Opts{Strategy: c.Strategy, DataChan: c.Buf, MaxBuffer: c.MaxBuf, Expansion: &exp,
 		BlockTimeout: time.Duration(c.BlockMs) * time.Millisecond, ResultChan: 16})
 	if err != nil {
@@ -186,12 +199,17 @@ func childC19(ctx *core.Ctx, raw []byte) {
 	type rec struct{ p, id int }
 	var mu sync.Mutex
 	var seen []rec
+	var nilSeen, nilEmits int64
 	s.AddSyncSink(func(batch []map[string]any) {
 		if c.SinkDelayUs > 0 {
 			time.Sleep(time.Duration(c.SinkDelayUs) * time.Microsecond)
 		}
 		mu.Lock()
 		for _, row := range batch {
+			if row["p"] == nil && row["id"] == nil {
+				nilSeen++ // the result of a nil row
+				continue
+			}
 			p, _ := toI(row["p"])
 			id, _ := toI(row["id"])
 			seen = append(seen, rec{int(p), int(id)})
@@ -229,6 +247,11 @@ func childC19(ctx *core.Ctx, raw []byte) {
 		go func(p int) {
 			defer wg.Done()
 			for j := 0; j < c.RowsPer; j++ {
+				if c.NilRows && j%211 == 100 {
+					atomic.AddInt64(&emits, 1)
+					atomic.AddInt64(&nilEmits, 1)
+					s.Emit(nil)
+				}
 				atomic.AddInt64(&emits, 1)
 				s.Emit(Row{"id": j, "p": p})
 			}
@@ -245,16 +268,18 @@ func childC19(ctx *core.Ctx, raw []byte) {
 	// quiescence: nothing queued, counters stable
 	total := atomic.LoadInt64(&emits)
 	stable, last := 0, int64(-1)
+	settled := false
 	deadline := time.Now().Add(60 * time.Second)
 	for time.Now().Before(deadline) {
 		st := s.GetStats()
 		mu.Lock()
-		n := int64(len(seen))
+		n := int64(len(seen)) + nilSeen
 		mu.Unlock()
 		sum := n + st["input_dropped_count"]
 		if st["data_chan_len"] == 0 && sum == last {
 			stable++
 			if stable >= 3 && (sum == total || stable >= 40) {
+				settled = true
 				break
 			}
 		} else {
@@ -268,9 +293,17 @@ func childC19(ctx *core.Ctx, raw []byte) {
 	st := s.GetStats()
 	s.Stop()
 	sched.Set(nil)
+	if !settled {
+		// the consumer was still working through its backlog when the watchdog expired: no verdict
+		ctx.Inconclusive(fmt.Sprintf("c19: not quiescent within 60 s after the last Emit (data_chan_len %d)", st["data_chan_len"]))
+		return
+	}
 	mu.Lock()
 	got := append([]rec(nil), seen...)
+	nilGot := nilSeen
 	mu.Unlock()
+	ctx.Count("nil_rows_emitted", atomic.LoadInt64(&nilEmits))
+	ctx.Count("nil_rows_processed", nilGot)
 	dropped := st["input_dropped_count"]
 	ctx.Count("rows_emitted", total)
 	ctx.Count("rows_processed", int64(len(got)))
@@ -298,9 +331,9 @@ func childC19(ctx *core.Ctx, raw []byte) {
 			break
 		}
 	}
-	if int64(len(got))+dropped != total {
-		viol("conservation.count_mismatch", fmt.Sprintf("processed %d + input_dropped_count %d = %d ≠ %d Emit calls after quiescence (strategy %s, buffer %d, %d expansions, block timeout %dms)",
-			len(got), dropped, int64(len(got))+dropped, total, c.Strategy, c.Buf, expansions, c.BlockMs))
+	if int64(len(got))+nilGot+dropped != total {
+		viol("conservation.count_mismatch", fmt.Sprintf("processed %d (of which %d results of nil rows) + input_dropped_count %d = %d ≠ %d Emit calls (%d of them with a nil row) after quiescence (strategy %s, buffer %d, %d expansions, block timeout %dms, expansion timeout %dms)",
+			int64(len(got))+nilGot, nilGot, dropped, int64(len(got))+nilGot+dropped, total, atomic.LoadInt64(&nilEmits), c.Strategy, c.Buf, expansions, c.BlockMs, c.ExpTimeoutMs))
 	}
 	if c.Strategy == "block" && c.BlockMs == 0 && dropped != 0 {
 		viol("conservation.block_dropped", fmt.Sprintf("block strategy without timeout dropped %d rows", dropped))
